@@ -23,7 +23,8 @@ from .c08_reference import (CLOSE_T, OPEN_T, Quotes, clock, parse_instant, sched
 PROPERTY = "C14"
 CLAUSES = ["rebalances-exactly-scheduled-after-burn-in", "no-fill-before-first-rebalance",
            "fills-only-at-market-open", "equity-one-point-per-business-day",
-           "equity-equals-marked-account-equity", "allocation-table-ffill"]
+           "equity-equals-marked-account-equity", "allocation-table-ffill",
+           "later-session-in-the-same-process-unaffected"]
 N_QUICK = 96
 N_THOROUGH = 9600
 BOUND = (
@@ -37,7 +38,9 @@ BOUND = (
     "(buffer .0-.25) or long/short (leverage 1-2), zero or percentage fees. quick: first %d cases (or fewer if "
     "budget_s runs out); thorough: first %d cases. Equity recomputation compared to 1e-9 relative, everything "
     "else exactly. Runs with no executed rebalance are outside the allocation-table clause (as stated in the "
-    "property) and are not counted as non-trivial." % (N_QUICK, N_THOROUGH))
+    "property) and are not counted as non-trivial. Every case with a burn-in is followed, in the same process, by the same "
+    "session without the burn-in, whose construction instants are compared with the schedule again (state leaking from "
+    "one session into the next)." % (N_QUICK, N_THOROUGH))
 
 KINDS = [("weekly", "MON"), ("weekly", "TUE"), ("weekly", "WED"), ("weekly", "THU"), ("weekly", "FRI"),
          ("daily", None), ("end_of_month", None), ("buy_and_hold", None)]
@@ -152,6 +155,13 @@ def check_case(case):
         M.write_market(d, market)
         obs = M.run_session(d, cfg)
         quotes = Quotes(d, cfg["symbols"])
+        obs2 = None
+        if cfg.get("burn_in"):
+            # a session is a function of its configuration: the SAME range and schedule run again in this process without the
+            # burn-in (state kept at module / class level by an earlier session must not leak into a later one)
+            cfg2 = dict(cfg)
+            cfg2.pop("burn_in")
+            obs2 = M.run_session(d, cfg2)
     exp = oracle(cfg)
     res = []
     if obs["error"] is not None:
@@ -232,6 +242,12 @@ def check_case(case):
                     ok, o, e = False, {"date": day, "row": g}, {"date": day, "row": w}
                     break
         res.append(("allocation-table-ffill", ok, o, e))
+    if obs2 is not None:
+        want2 = [stamp(t) for t in oracle(cfg2)["rebalances"]]
+        got2 = None if obs2["error"] is not None else [r[0] for r in obs2["alloc_rows"]]
+        res.append(("later-session-in-the-same-process-unaffected", got2 == want2 and obs2["qts_calls"] == want2,
+                    {"error": obs2["error"], "allocation_row_dates": got2 and got2[:4], "n": got2 and len(got2)},
+                    {"allocation_row_dates": want2[:4], "n": len(want2)}))
     return {"case": case, "results": res, "n_rebalances": len(obs["alloc_rows"]), "n_fills": len(obs["fills"])}
 
 
